@@ -283,8 +283,14 @@ def empty(regexes, timeout_ms=20000, extra=None):
         s.add(extra(x))
     res = s.check()
     if res == z3.sat:
-        return "sat", s.model()[x].as_string()
+        return "sat", unescape(s.model()[x].as_string())
     return ("unsat" if res == z3.unsat else "unknown"), None
+
+
+def unescape(t):
+    """z3 prints non-ASCII characters as \\u{hex}: back to the real string"""
+    import re as _re
+    return _re.sub(r"\\u\{([0-9a-fA-F]+)\}", lambda m: chr(int(m.group(1), 16)), t)
 
 
 def subset(a, b, timeout_ms=20000):
